@@ -5,4 +5,5 @@ From Coq Require Import NArith ZArith List.
 From GV Require Import lib.Bytes model.Sql model.Rel model.Plan.
 Extraction "extract/plan_model.ml"
   Sql.eval_query Sql.check_answer Sql.bag_eqb
-  Plan.plan_of Plan.plan0_of Plan.eval_lplan Plan.lskel Plan.joins_wf Plan.db_arity_ok Plan.plan_supported.
+  Plan.plan_of Plan.plan0_of Plan.eval_lplan Plan.lskel Plan.joins_wf Plan.db_arity_ok Plan.plan_supported
+  Plan.phys_of Plan.pskel Plan.phys_sk Plan.psk_eqb Plan.exec_pplan.
